@@ -189,18 +189,16 @@ fn round_quot(
 #[doc(hidden)]
 #[must_use]
 pub fn i128_div_rounded(
-    mut divident: i128,
-    mut divisor: i128,
+    divident: i128,
+    divisor: i128,
     mode: Option<RoundingMode>,
 ) -> i128 {
-    if divisor < 0 {
-        divident = -divident;
-        divisor = -divisor;
-    }
     let (quot, rem) = i128_div_mod_floor(divident, divisor);
-    // div_mod_floor with divisor > 0 => rem >= 0
-    // rem != 0 => divisor >= 2 => |quot| <= 2^126, so quot + 1 can't overflow
-    match round_quot(quot, rem as u128, divisor as u128, mode) {
+    // div_mod_floor => rem, if non-zero, has the sign of divisor, so that
+    // |rem| / |divisor| is the fraction cut off (no operand is negated:
+    // -i128::MIN would overflow)
+    // rem != 0 => |divisor| >= 2 => |quot| <= 2^126, so quot + 1 can't overflow
+    match round_quot(quot, rem.unsigned_abs(), divisor.unsigned_abs(), mode) {
         Some(quot) => quot,
         None => unreachable!(),
     }
@@ -211,18 +209,14 @@ pub fn i128_div_rounded(
 #[doc(hidden)]
 #[must_use]
 pub fn i128_shifted_div_rounded(
-    mut divident: i128,
+    divident: i128,
     p: u8,
-    mut divisor: i128,
+    divisor: i128,
     mode: Option<RoundingMode>,
 ) -> Option<i128> {
-    if divisor < 0 {
-        divident = -divident;
-        divisor = -divisor;
-    }
     let (quot, rem) = i128_shifted_div_mod_floor(divident, p, divisor)?;
-    // div_mod_floor with divisor > 0 => rem >= 0
-    round_quot(quot, rem as u128, divisor as u128, mode)
+    // div_mod_floor => rem, if non-zero, has the sign of divisor
+    round_quot(quot, rem.unsigned_abs(), divisor.unsigned_abs(), mode)
 }
 
 /// Divide 'x * y' by '10^p' and round result according to 'mode'.
